@@ -114,17 +114,27 @@ void ares_tvnow(ares_timeval_t *now)
 
 /* The request queue is abstracted to its length behind the ares_llist API (the functions under test only ask for the
  * length): other threads set it to any value 0..W_MAXQ. */
-static size_t W_qlen;
+static size_t        W_qlen;
+static ares_llist_t *W_first_list;
+static int           W_list_swapped;
 size_t ares_llist_len(const ares_llist_t *list)
 {
-  VP_ASSERT(list == W_ch.all_queries, "length of the channel's request queue");
+  VP_ASSERT(list == W_ch.all_queries, "length asked of the channel's CURRENT request queue (never of a list another thread has replaced and destroyed)");
   return W_qlen;
 }
+static int dummy_q2_obj;
 void W_others_run(void)
 {
   size_t want = vp_range(0, W_MAXQ);
   if (want != W_qlen) W_queue_changed = 1;
   W_qlen = want;
+  /* ares_cancel() run by another thread REPLACES the channel's request list by a fresh one and destroys the old
+   * object: whoever resumes under the lock must look at channel->all_queries again (ares_llist_len above asserts that
+   * the list it is asked about is the channel's current one - the old object no longer exists) */
+  if (vp_bool()) {
+    W_ch.all_queries = (W_ch.all_queries == (ares_llist_t *)&dummy_q2_obj) ? W_first_list : (ares_llist_t *)&dummy_q2_obj;
+    W_list_swapped   = 1;
+  }
 }
 
 void harness(void)
@@ -136,6 +146,7 @@ void harness(void)
   W_ch.lock        = (ares_thread_mutex_t *)&lock_obj;
   W_ch.cond_empty  = (ares_thread_cond_t *)&cond_obj;
   W_ch.all_queries = (ares_llist_t *)&dummy_q;
+  W_first_list     = W_ch.all_queries;
   n0 = vp_range(0, W_MAXQ);
   W_qlen = n0;
   (void)i;
